@@ -578,3 +578,31 @@ META["C08"] = dict(
     },
     assumptions=["parse_args(namespace=ns): ns must stay unchanged too"],
 )
+
+META["C13"] = dict(
+    title="Parameters resolved through **kwargs are exactly those the code accepts",
+    level="exploration",
+    level_text="Generated class hierarchies written to real source files (depth 1-5; chain classes choosing among: "
+    "super().__init__(**kwargs), super(Cls, self), hard-coded keyword at the call, class without __init__, call to a module "
+    "function (optionally with a hard-coded keyword), call to an own method, attribute use in a method, kwargs.pop / kwargs.get "
+    "with constant default, constant conditional on a module global, no **kwargs; optional diamond on top; optional split of the "
+    "root class and its helper into a second source file; occasional re-declaration of an inherited parameter). Two oracles: a "
+    "recursive model over Python's own MRO computing the reachable named parameters from the generator's spec, and the "
+    "interpreter (calls with each candidate parameter). Compared with get_signature_parameters: offered set, hard-coded names, "
+    "annotation and default per parameter; then add_class_arguments + parse + instantiate_classes with every offered parameter, "
+    "and enforcement of required ones.",
+    level_note="Only documented patterns are composed; a case where the interpreter itself rejects the model's parameter set is "
+    "skipped and counted (generator inconsistency, not a verdict). Conditional<ast-resolver> parameters are excluded from 'offered'.",
+    shards=g(4, 16),
+    budget=g(40, 240),
+    technique="spec-derived reachability model + interpreter oracle vs get_signature_parameters on generated source files",
+    rule="a case is (depth, two files?, leaf, tuple of forwarding patterns along the MRO); distinct by hash; non-trivial = the "
+    "generated program imports and the interpreter accepts the model's parameter set.",
+    gates={
+        "mon.programs": g(600, 8000), "mon.parameter_sets_compared": g(500, 7000), "mon.parser_instantiations": g(400, 6000), "mon.required_enforced": g(50, 500),
+        "st.depth.5": g(40, 400), "st.multiple_inheritance": g(50, 500), "st.two_source_files": g(100, 1000), "st.hard_coded_argument": g(100, 1000),
+        "st.pattern.super": g(200, 2000), "st.pattern.super-hard": g(80, 800), "st.pattern.noinit": g(80, 800), "st.pattern.func": g(80, 800),
+        "st.pattern.method": g(50, 500), "st.pattern.attr": g(80, 800), "st.pattern.pop": g(80, 800), "st.pattern.get": g(50, 500), "st.pattern.cond": g(80, 800),
+    },
+    assumptions=["parameters that differ between conditional branches are Conditional<ast-resolver> and not 'offered by default'"],
+)
